@@ -1,5 +1,158 @@
-import FloxProofs.Members
+/-
+  C02 — map-reduce over a chunked array (blocks reindexed to the expected groups, `_simple_combine`, tree reduction
+  with any `split_every`) = the eager result = the specification; tie to the live `_initialize_aggregation` table.
+  Property theorems only (helper lemmas live in FloxProofs).
+-/
+import FloxProofs.EndToEnd
+import FloxProofs.TableShape
+import FloxProofs.EndToEndExamples
+
 namespace Flox.C02
-theorem placeholder_members_append (g : Int) (c₁ c₂ : List Int) (v₁ v₂ : List Val) (h : c₁.length = v₁.length) :
-    members g (c₁ ++ c₂) (v₁ ++ v₂) = members g c₁ v₁ ++ members g c₂ v₂ := members_append g c₁ c₂ v₁ v₂ h
+
+/-- **Map-reduce = eager.**  For a resolved blueprint with a `Shape` (simple-combine reductions), the numpy_groupies
+    engine, integer codes in `-1..n-1`, and ANY chunking `chunks` (non-empty, covering the array) and ANY
+    `split_every`, the map-reduce plan with reindexing at the block stage returns exactly what the eager path
+    returns (including the `ValueError` outcome).
+
+    * `H_absent`: a requested label that does not occur gets the user's fill only through the count mask
+      (otherwise eager gives the NumPy fill and map-reduce the finalized intermediate fills).
+    * `H_allnan`: nanmax / nanmin / nanfirst / nanlast / nanmean / nanvar: NumPy fill NaN unless the mask is on.
+    * `H_minmax`: nanmax / nanmin: the count mask is on (`min_count ≥ 1`, as the registry forces). -/
+theorem mapreduce_dense_eq_eager (R : Resolved) (s : Shape) (c : Call) (n : Nat) (floatData : Bool)
+    (chunks chunks' : List Nat) (codes : List Int) (vals : List Val)
+    (hR : c.R = R) (heng : c.eng = .npg) (hn : c.ngroups = n) (hknown : c.knownLabels = true)
+    (hshape : R.shape? = some s)
+    (hcodes : ∀ c ∈ codes, -1 ≤ c ∧ c < (n : Int)) (hlen : codes.length = vals.length)
+    (H_absent : ∀ g : Nat, g < n → R.minCount ≥ 1 ∨ members (Int.ofNat g) codes vals ≠ [])
+    (H_allnan : s.needsNaNFill = true → R.minCount ≥ 1 ∨ R.npFill = Val.nan)
+    (H_minmax : s.isNanMinMax = true → R.minCount ≥ 1)
+    (hchunks : chunks ≠ []) (hsum : chunks.sum = codes.length)
+    (hcombine : useGroupedCombine c floatData = false) :
+    runKnown c (.mapreduce true) floatData chunks (codes.map fun (i : Int) => (some (i : Rat) : Key)) vals
+      = runKnown c .eager floatData chunks' (codes.map fun (i : Int) => (some (i : Rat) : Key)) vals :=
+  Flox.mapreduce_dense_eq_eager R s c n floatData chunks chunks' codes vals hR heng hn hknown hshape hcodes hlen
+    H_absent H_allnan H_minmax hchunks hsum hcombine
+
+/-- **Map-reduce = specification** (no condition on the NumPy fill) -/
+theorem mapreduce_dense_eq_spec (R : Resolved) (s : Shape) (c : Call) (n : Nat) (floatData : Bool)
+    (chunks : List Nat) (codes : List Int) (vals : List Val)
+    (hR : c.R = R) (heng : c.eng = .npg) (hn : c.ngroups = n) (hknown : c.knownLabels = true)
+    (hshape : R.shape? = some s)
+    (hcodes : ∀ c ∈ codes, -1 ≤ c ∧ c < (n : Int)) (hlen : codes.length = vals.length)
+    (H_absent : ∀ g : Nat, g < n → R.minCount ≥ 1 ∨ members (Int.ofNat g) codes vals ≠ [])
+    (H_minmax : s.isNanMinMax = true → R.minCount ≥ 1)
+    (hchunks : chunks ≠ []) (hsum : chunks.sum = codes.length)
+    (hcombine : useGroupedCombine c floatData = false) :
+    runKnown c (.mapreduce true) floatData chunks (codes.map fun (i : Int) => (some (i : Rat) : Key)) vals
+      = (match Spec.reduce s.kernel R.minCount R.userFill codes vals n with
+          | some vs => .ok vs
+          | none => .error "ValueError") :=
+  Flox.mapreduce_dense_eq_spec R s c n floatData chunks codes vals hR heng hn hknown hshape hcodes hlen H_absent
+    H_minmax hchunks hsum hcombine
+
+/-- **Chunking and tree shape are irrelevant**: two calls that differ only in chunking and `split_every`
+    (and `sort`, `fillArg`) return the same result. -/
+theorem mapreduce_dense_chunking_tree_irrelevant (R : Resolved) (s : Shape) (c₁ c₂ : Call) (n : Nat)
+    (floatData : Bool) (chunks₁ chunks₂ : List Nat) (codes : List Int) (vals : List Val)
+    (hR₁ : c₁.R = R) (heng₁ : c₁.eng = .npg) (hn₁ : c₁.ngroups = n) (hknown₁ : c₁.knownLabels = true)
+    (hR₂ : c₂.R = R) (heng₂ : c₂.eng = .npg) (hn₂ : c₂.ngroups = n) (hknown₂ : c₂.knownLabels = true)
+    (hshape : R.shape? = some s)
+    (hcodes : ∀ c ∈ codes, -1 ≤ c ∧ c < (n : Int)) (hlen : codes.length = vals.length)
+    (H_absent : ∀ g : Nat, g < n → R.minCount ≥ 1 ∨ members (Int.ofNat g) codes vals ≠ [])
+    (H_minmax : s.isNanMinMax = true → R.minCount ≥ 1)
+    (hchunks₁ : chunks₁ ≠ []) (hsum₁ : chunks₁.sum = codes.length)
+    (hchunks₂ : chunks₂ ≠ []) (hsum₂ : chunks₂.sum = codes.length)
+    (hcombine₁ : useGroupedCombine c₁ floatData = false) (hcombine₂ : useGroupedCombine c₂ floatData = false) :
+    runKnown c₁ (.mapreduce true) floatData chunks₁ (codes.map fun (i : Int) => (some (i : Rat) : Key)) vals
+      = runKnown c₂ (.mapreduce true) floatData chunks₂ (codes.map fun (i : Int) => (some (i : Rat) : Key)) vals :=
+  Flox.mapreduce_dense_chunking_tree_irrelevant R s c₁ c₂ n floatData chunks₁ chunks₂ codes vals hR₁ heng₁ hn₁
+    hknown₁ hR₂ heng₂ hn₂ hknown₂ hshape hcodes hlen H_absent H_minmax hchunks₁ hsum₁ hchunks₂ hsum₂ hcombine₁
+    hcombine₂
+
+/-- the same three statements hold with flox's own engine (`mapreduce_dense_eq_spec_flox` for every shape) -/
+theorem mapreduce_dense_eq_spec_flox (R : Resolved) (s : Shape) (c : Call) (n : Nat) (floatData : Bool)
+    (chunks : List Nat) (codes : List Int) (vals : List Val)
+    (hR : c.R = R) (heng : c.eng = .flox) (hn : c.ngroups = n) (hknown : c.knownLabels = true)
+    (hshape : R.shape? = some s)
+    (hcodes : ∀ c ∈ codes, -1 ≤ c ∧ c < (n : Int)) (hlen : codes.length = vals.length)
+    (H_absent : ∀ g : Nat, g < n → R.minCount ≥ 1 ∨ members (Int.ofNat g) codes vals ≠ [])
+    (H_minmax : s.isNanMinMax = true → R.minCount ≥ 1)
+    (hchunks : chunks ≠ []) (hsum : chunks.sum = codes.length)
+    (hcombine : useGroupedCombine c floatData = false) :
+    runKnown c (.mapreduce true) floatData chunks (codes.map fun (i : Int) => (some (i : Rat) : Key)) vals
+      = (match Spec.reduce s.kernel R.minCount R.userFill codes vals n with
+          | some vs => .ok vs
+          | none => .error "ValueError") :=
+  Flox.mapreduce_dense_eq_spec_flox R s c n floatData chunks codes vals hR heng hn hknown hshape hcodes hlen H_absent
+    H_minmax hchunks hsum hcombine
+
+/-- **Tie to the live table.**  Every `ok` row of `_initialize_aggregation` for a simple-combine reduction on
+    float64 / float32 data resolves (for any user fill, any `min_count` of the row's positivity, any `ddof`) to a
+    blueprint that has a `Shape` whose NumPy kernel is the one named by `func`, and satisfies `H_allnan`,
+    `H_minmax` and `H_floxmean` (so only `H_absent` is left to the caller). -/
+theorem generated_rows_have_shape :
+    ∀ row ∈ Generated.initRows, row.ok = true → row.dkind ∈ ["f8", "f4"] →
+      row.func ∈ ["sum", "nansum", "prod", "nanprod", "max", "nanmax", "min", "nanmin", "count", "mean", "nanmean",
+        "var", "nanvar", "std", "nanstd", "nanfirst", "nanlast"] →
+      ∀ (user : Option Val) (mc ddof : Nat), row.mcPos = decide (mc > 0) →
+        ∃ R s, row.resolve user mc ddof = some R ∧ R.shape? = some s
+          ∧ kernelWithDdof ddof row.func = some s.kernel
+          ∧ (s.needsNaNFill = true → R.minCount ≥ 1 ∨ R.npFill = Val.nan)
+          ∧ (s.isNanMinMax = true → R.minCount ≥ 1)
+          ∧ (s.isMean = true → R.npFill = Val.nan)
+          ∧ R.name = row.func ∧ R.ddof = ddof
+          ∧ (mc > 0 → R.minCount = mc) ∧ (mc = 0 → R.minCount ≤ 1)
+          ∧ (row.userFill = "user" → R.userFill = user) := by
+  intro row hrow hok hdk hfunc user mc ddof hmc
+  obtain ⟨R, s, hf⟩ := Flox.generated_rows_have_shape row hrow hok hdk hfunc user mc ddof hmc
+  exact ⟨R, s, hf.resolve, hf.shape, hf.kernel, hf.allnan, hf.minmax, hf.floxmean, hf.name, hf.ddof, hf.minCount, hf.minCount0,
+    hf.userFill⟩
+
+/-! ### non-vacuity -/
+
+open E2E in
+/-- `nanmean(min_count=1, fill_value=-1)`, 4 blocks, binary tree: all hypotheses hold, the value is real -/
+example :
+    runKnown (mkCall Rnanmean .npg 4 2) (.mapreduce true) true [2, 1, 3, 2]
+        (codes8.map fun (i : Int) => (some (i : Rat) : Key)) vals8
+      = runKnown (mkCall Rnanmean .npg 4 2) .eager true [8] (codes8.map fun (i : Int) => (some (i : Rat) : Key)) vals8
+    ∧ runKnown (mkCall Rnanmean .npg 4 2) (.mapreduce true) true [2, 1, 3, 2]
+        (codes8.map fun (i : Int) => (some (i : Rat) : Key)) vals8
+      = .ok [Val.fin (3/2), Val.fin (-1), Val.fin 4, Val.fin (-1)] :=
+  ⟨mapreduce_dense_eq_eager Rnanmean (.mean true) (mkCall Rnanmean .npg 4 2) 4 true [2, 1, 3, 2] [8] codes8 vals8
+      rfl rfl rfl rfl (by decide +kernel) (by decide +kernel) rfl (fun _ _ => Or.inl (by decide))
+      (by decide +kernel) (by decide +kernel) (by decide) rfl (by decide +kernel),
+    by decide +kernel⟩
+
+open E2E in
+/-- two chunkings / two trees / both engines, evaluated -/
+example :
+    runKnown (mkCall Rnanmean .npg 4 2) (.mapreduce true) true [2, 1, 3, 2]
+        (codes8.map fun (i : Int) => (some (i : Rat) : Key)) vals8
+      = runKnown (mkCall Rnanmean .npg 4 8) (.mapreduce true) true [1, 1, 1, 1, 1, 1, 1, 1]
+        (codes8.map fun (i : Int) => (some (i : Rat) : Key)) vals8
+    ∧ runKnown (mkCall Rnanmean .flox 4 3) (.mapreduce true) true [4, 4]
+        (codes8.map fun (i : Int) => (some (i : Rat) : Key)) vals8
+      = .ok [Val.fin (3/2), Val.fin (-1), Val.fin 4, Val.fin (-1)] := by decide +kernel
+
+/-- the table theorem is not vacuous: the float64 `nanmax` row without `min_count` exists, is `ok`, and resolves to a
+    blueprint whose `min_count` is forced to 1 -/
+example : ∃ row ∈ Generated.initRows, row.ok = true ∧ row.dkind = "f8" ∧ row.func = "nanmax" ∧ row.mcPos = false
+    ∧ row.minCount = "1" ∧ row.userFill = "nan" := by
+  refine ⟨{ func := "nanmax", dkind := "f8", fillKind := "none", mcPos := false, ok := true,
+            numpy := ["nanmax", "nanlen"], chunk := ["nanmax", "nanlen"], combine := ["nanmax", "sum"],
+            simple := ["nanmax", "sum"], interFills := ["-inf", "0"], numpyFills := ["nan", "0"], finalFill := "nan",
+            userFill := "nan", minCount := "1", finalize := "None", finalDtype := "float64",
+            interDtypes := ["float64", "int64"], numpyDtypes := ["float64", "int64"], isArg := false }, ?_, ?_⟩
+  · decide +kernel
+  · decide +kernel
+
+/-- necessity of the hypotheses: `E2E.H_absent_counterexample_mapreduce`, `E2E.H_allnan_counterexample`,
+    `E2E.H_minmax_counterexample`, `E2E.chunks_ne_nil_counterexample`, `E2E.chunks_sum_counterexample` -/
+example :
+    runKnown (E2E.mkCall E2E.Rnanmax0 .npg 1 2) (.mapreduce true) true [1] ([0].map fun (i : Int) => (some (i : Rat) : Key))
+        [Val.nan]
+      ≠ runKnown (E2E.mkCall E2E.Rnanmax0 .npg 1 2) .eager true [1] ([0].map fun (i : Int) => (some (i : Rat) : Key))
+        [Val.nan] := by decide +kernel
+
 end Flox.C02
